@@ -17,6 +17,8 @@ CLASSES = ['StorySend', 'StoryAppend', 'StoryDelete', 'StoryInsert', 'StoryMove'
            'EAStoryReplace', 'EAItemReplace', 'EAStoryDelete', 'EAItemDelete', 'EAStoryInsert',
            'EAItemInsert', 'EAStorySwap', 'EAItemSwap', 'EAStoryMove', 'EAItemMove']
 
+CORNER_DUR = ['nan', 'NaN', 'inf', '-inf', ' Infinity ', '-5', '-0.0', '1e400', '1e-400', '0.1234567', '1_0.5', '9' * 320,
+              '00:01:30', 'junk', '1,5', '', '12 s', '0x10']       # ... and texts float() rejects: no merge reads them either
 DUR = ['0', '1', '2.5', '3', '10', '12.25', '0.125', '7.75', '60', '31', ' 3 ', '+2', '1e1', '25e-1', '0.5E1', '1.50', '007', '.5', '5.', '\t4\n', '0.1', '0.2', '0.3337', '20.0004', '0.04', '7.7', '33.333333']
 CR = '@@CR@@'        # becomes the character reference &#13; where the caller serialises the message (hist_run)
 TEXTS = ['del\x7f nel\x85 pu2\x92 (C1 controls)', 'line one' + CR + 'line two', 'cafe\u0301 (decomposed)', '\u2126\u212b',  'plain text', ' padded ', '(note)', '<tech>', '(half', 'half>', 'Ünïcödé ☃ 𝄞', 'a & b < c > d "q" \'s\'',
@@ -27,7 +29,8 @@ SPECIAL_IDS = ['L' * 128 + 'A', 'L' * 128 + 'B', 'STORY%20ONE', 'SHARE 100%', '%
 
 
 class Gen:
-    def __init__(self, rng, odd_message_ids=False):
+    def __init__(self, rng, odd_message_ids=False, corner_durations=False):
+        self.corner_durations = corner_durations
         self.rng = rng
         self.n = 0
         self.issued = {}
@@ -58,6 +61,10 @@ class Gen:
 
     def timing(self):
         r = self.rng
+        if self.corner_durations and r.random() < 0.05:
+            # durations float() accepts whose VALUE no merge may depend on (merges never read them)
+            v = r.choice(CORNER_DUR)
+            return B.timing_md(**{r.choice(['duration', 'text_time', 'media_time']): v})
         c = r.random()
         if c < 0.35:
             return None
@@ -122,7 +129,9 @@ class Gen:
         r = self.rng
         stories = [self.new_story() for _ in range(n_stories)]
         doc = B.ro_doc(stories, pattern=r.choice(B.PATTERNS), message_id=r.choice(['1', '1', '1', '0', '007', '4294967296']) if self.odd_message_ids else '1',
-                       ed_start=r.choice([None, None, '2021-03-04T09:00:00', '2020-02-29T23:59:30', '\n      2021-03-04T09:00:00\n    ', '2021-03-04 09:00:00.5', ' 2021-03-04T09:00:00Z ']))
+                       ed_start=(r.choice(['junk', '25:61', '', '9999-12-31T23:59:59', '0000-00-00'])
+                                 if self.corner_durations and r.random() < 0.04 else
+                                 r.choice([None, None, '2021-03-04T09:00:00', '2020-02-29T23:59:30', '\n      2021-03-04T09:00:00\n    ', '2021-03-04 09:00:00.5', ' 2021-03-04T09:00:00Z '])))
         # the running order's own envelope varies like any other (roCreate first, fields missing, extras)
         if r.random() < 0.3:
             # a standard MOS header field the library does not use: the running order's own idea of its duration
